@@ -33,6 +33,10 @@ def build_case(ctx, rng, cid):
         chrono = rng.random() < 0.85
         s = cases.make_source(rng, sid, cnt, t0 + rng.choice([0, 0, 1, 2]) * gen.NS, tz_min,
                               mode=shared_mode, codec=codec, chrono=chrono, traces=rng.choice([0, 0, 0, 0.2, 0.5]))
+        if cases.blockzero_class(b"", s.msgs, 65536, s.trailing_newline):
+            # a file that begins with a stack-trace sized message can fall into the block-zero admission class (C02's known
+            # finding: fewer than 3 lines / 2 messages inside the first 8096+ bytes); not this property's subject
+            s = cases.make_source(rng, sid, cnt, t0 + rng.choice([0, 0, 1, 2]) * gen.NS, tz_min, mode=shared_mode, codec=codec, chrono=chrono)
         s.write(d, rng)
         srcs.append(s)
     return d, srcs, tz_min
